@@ -63,19 +63,19 @@ Proof.
     rewrite IH by reflexivity. reflexivity.
 Qed.
 
-Theorem read_files_roundtrip : forall (files : list (bytes * bytes)) (e : bool),
+Theorem read_files_roundtrip : forall (files : list (bytes * bytes)) (e : serr),
   sizes_ok (map snd files) ->
   read_files (map (fun nd => file_value (fst nd) (snd nd)) files)
              (flat_map (fun nd => snd nd ++ CRLF) files) e
   = (map (fun nd => {| pf_data := snd nd; pf_name := fst nd; pf_err := false |}) files,
-     match files with [] => e | _ => false end, []).
+     match files with [] => e | _ => SOk end, []).
 Proof.
   induction files as [|[name data] r IH]; intros e Hs; [reflexivity|].
   cbn [map fst snd flat_map] in *. inversion Hs as [|? ? [H1 [H2 H3]] Hr]; subst.
   cbn [read_files]. unfold file_value at 1.
   rewrite split_at_app_nosep by exact H3. rewrite H2, H1.
   rewrite <- app_assoc. rewrite read_section_crlf.
-  rewrite (IH false Hr). destruct r; reflexivity.
+  rewrite (IH SOk Hr). destruct r; reflexivity.
 Qed.
 
 (* ---------- serialisation layout ---------- *)
@@ -98,13 +98,13 @@ Theorem sections_roundtrip body (files : list (bytes * bytes)) :
               ++ flat_map (fun nd => snd nd ++ CRLF) files in
   let '(b, se, rest) := read_section tail (Z.of_nat (length body)) in
   b = body /\ se = SOk /\
-  read_files (map (fun nd => file_value (fst nd) (snd nd)) files) rest false
-  = (map (fun nd => {| pf_data := snd nd; pf_name := fst nd; pf_err := false |}) files, false, []).
+  read_files (map (fun nd => file_value (fst nd) (snd nd)) files) rest SOk
+  = (map (fun nd => {| pf_data := snd nd; pf_name := fst nd; pf_err := false |}) files, SOk, []).
 Proof.
   intros Hs tail. unfold tail. destruct files as [|f r].
   - cbn [flat_map app]. rewrite app_nil_r, read_section_eof. repeat split; reflexivity.
   - rewrite read_section_crlf. repeat split; try reflexivity.
-    rewrite (read_files_roundtrip (f :: r) false Hs). reflexivity.
+    rewrite (read_files_roundtrip (f :: r) SOk Hs). reflexivity.
 Qed.
 
 (* Non-vacuity: decimal sizes up to a few digits satisfy sizes_ok (tested, not the general claim) *)
